@@ -39,6 +39,8 @@ THEOREMS = [
     "AiuVerif.C04.laminar_drop",
     "AiuVerif.C04.only_tid_changes_stage",
     "AiuVerif.C04.only_tid_changes",
+    "AiuVerif.C04.lanes_not_merged",
+    "AiuVerif.C04.drop_sublist",
 ]
 RULE = ("interval families as X events (plus counter events) on (pid,tid) lanes: exhaustive over one lane with "
         "endpoints in {0..4} (all ordered families of <=3 slices, all multisets of 4; zero-length and "
